@@ -189,4 +189,51 @@ pub(crate) mod __verif {
     fn cs_subtract_strings() {
         body(2, 3);
     }
+
+    // ---------------------------------------------------------------------------------------------
+    // Parser methods on a hand-built Parser value (never through try_parse: the group pre-scan uses a HashMap).
+
+    fn fixed_random_state() -> std::hash::RandomState {
+        // only ever an empty map is queried; fixed keys keep CBMC away from the OS randomness model
+        unsafe { core::mem::transmute::<[u64; 2], std::hash::RandomState>([1, 2]) }
+    }
+
+    fn parser<'a>(input: &'a [u32], flags: api::Flags) -> Parser<core::iter::Copied<core::slice::Iter<'a, u32>>> {
+        Parser {
+            input: input.iter().copied().peekable(),
+            flags,
+            loop_count: 0,
+            group_count: 0,
+            named_group_indices: HashMap::new(),
+            group_count_max: 0,
+            has_lookbehind: false,
+            depth: 0,
+        }
+    }
+
+    // @obligation name=p_class_set_single_ampersand props= fn=parse::Parser::consume_class_set_expression kind=bounded bound="class contents `x & y ]` under v with symbolic lower-case letters x, y; probe: every code point" min_checks=50 w=3 timeout=1500
+    // In a v-mode class a single `&` is an ordinary character: [x&y] denotes exactly {x, &, y}.
+    #[kani::proof]
+    #[kani::unwind(8)]
+    #[kani::stub(std::hash::RandomState::new, fixed_random_state)]
+    fn p_class_set_single_ampersand() {
+        let x: u32 = kani::any();
+        let y: u32 = kani::any();
+        kani::assume((0x61..=0x7A).contains(&x) && (0x61..=0x7A).contains(&y));
+        let buf = [x, 0x26, y, 0x5D];
+        let flags = api::Flags { unicode: true, unicode_sets: true, ..Default::default() };
+        let mut p = parser(&buf, flags);
+        let r = p.consume_class_set_expression(false);
+        match &r {
+            Ok(cs) => {
+                let cp: u32 = kani::any();
+                kani::assume(cp <= 0x10FFFF);
+                assert!(cs.codepoints.contains(cp) == (cp == x || cp == 0x26 || cp == y), "[x&y] = {x, &, y}");
+                assert!(cs.alternatives.0.is_empty());
+            }
+            Err(_) => assert!(false, "[x&y] is a valid class under v"),
+        }
+        core::mem::forget((r, p));
+        kani::cover!(x != y);
+    }
 }
